@@ -1429,6 +1429,11 @@ func (ro *RedisOutput) bisyncStartPoint(ctx context.Context, runIDs []string) (S
 		return sp, 0, false, nil
 	}
 	rootStartPoint := StartPoint{DbId: dbID, RunId: cpi.RunId, Offset: cpi.Offset}
+	// GetCheckpoint leaves the connection in the last database it visited; the
+	// bisync recovery keys (frontier, journal, latest) live in DB 0.
+	if err := redispkg.SelectDB(cli, 0); err != nil {
+		return sp, 0, false, err
+	}
 
 	slots := ro.bisyncRecoverySlots()
 	if ro.cfg.ReplayMode.UsesFrontier() {
